@@ -362,6 +362,93 @@ fn evaluate<M: Matcher>(p: &Prep, m: &M, answers: &[String], ctx: &mut Ctx) {
         }
     }
 
+    // ---- the printers' match limit (-m N): where the real Standard / JSON sink first answers stop, vs the
+    //      model of its counters and the counting spec; and the stream it sees = prefix + finish
+    if case.script.is_none() && cfg.bin == Bin::None {
+        let kinds = kinds_str(&ev);
+        let a_eff = cfg.effective().a;
+        for nlim in 0..=3u64 {
+            let reply = ctx.drv.ask(&format!("c16.quitindex {} {} {}", nlim, a_eff, kinds));
+            let (qm, qs) = match reply.split_once('|') {
+                Some(x) => x,
+                None => {
+                    ctx.rep.violation(Violation {
+                        kind: "impl_vs_model".into(),
+                        class: "".into(),
+                        tie: "driver c16.quitindex".into(),
+                        case: line.to_string(),
+                        detail: format!("driver answered {:?}", reply),
+                    });
+                    break;
+                }
+            };
+            for printer in ["standard", "json"] {
+                let (run, first_stop) = if printer == "standard" {
+                    let mut pr = grep_printer::StandardBuilder::new().max_matches(Some(nlim)).build_no_color(vec![]);
+                    let mut tap = TapSink::new(pr.sink(m));
+                    let res = ss.plain.search_slice(m, input, &mut tap);
+                    (format!("{}|{}", tap.rec.events.join(";"), if res.is_ok() { "ok" } else { "err" }), tap.first_stop)
+                } else {
+                    let mut pr = grep_printer::JSONBuilder::new().max_matches(Some(nlim)).build(vec![]);
+                    let mut tap = TapSink::new(pr.sink(m));
+                    let res = ss.plain.search_slice(m, input, &mut tap);
+                    (format!("{}|{}", tap.rec.events.join(";"), if res.is_ok() { "ok" } else { "err" }), tap.first_stop)
+                };
+                ctx.rep.eval();
+                ctx.rep.branch(&format!("maxcount:{}:{}", printer, if first_stop.is_some() { "limit-hit" } else { "limit-not-hit" }));
+                let fs = first_stop.map_or("-".to_string(), |k| k.to_string());
+                let cl = format!("{} #maxcount={} printer={}", line, nlim, printer);
+                if fs != qm {
+                    ctx.rep.violation(Violation {
+                        kind: "impl_vs_model".into(),
+                        class: "".into(),
+                        tie: format!("{} printer sink with max_matches: first refused callback vs Spec/MaxCount.answers", printer),
+                        case: line.to_string(),
+                        detail: format!("{} {}: impl {} model {} stream {}", what, cl, fs, qm, kinds),
+                    });
+                }
+                if fs != qs {
+                    ctx.rep.violation(Violation {
+                        kind: "impl_vs_spec".into(),
+                        class: "".into(),
+                        tie: format!("{} printer sink with max_matches N: stops at the N-th match plus A trailing lines", printer),
+                        case: line.to_string(),
+                        detail: format!("{} {}: impl {} spec {} stream {}", what, cl, fs, qs, kinds),
+                    });
+                }
+                if qm != qs {
+                    ctx.rep.violation(Violation {
+                        kind: "model_vs_spec".into(),
+                        class: "".into(),
+                        tie: "theorem firstFalse_eq_quitIndex / C16_maxcount contradicted".into(),
+                        case: line.to_string(),
+                        detail: format!("{} N={} A={} stream {}: model {} spec {}", what, nlim, a_eff, kinds, qm, qs),
+                    });
+                }
+                // what the printer was shown: the prefix up to the refused callback, then finish
+                let verdict = match first_stop {
+                    Some(k) if k + 1 < n => prefix_rule(e_impl, &run, k, false),
+                    _ => {
+                        if run == *e_impl {
+                            Ok(())
+                        } else {
+                            Err("the limit was not hit but the stream differs from the uninterrupted one".to_string())
+                        }
+                    }
+                };
+                if let Err(why) = verdict {
+                    ctx.rep.violation(Violation {
+                        kind: "impl_vs_spec".into(),
+                        class: "".into(),
+                        tie: format!("{} printer sink with max_matches: callbacks delivered = prefix + one finish", printer),
+                        case: line.to_string(),
+                        detail: format!("{} {}: {}; run {} ; uninterrupted {}", what, cl, why, run, e_impl),
+                    });
+                }
+            }
+        }
+    }
+
     // ---- the other strategies: the rule relative to their own uninterrupted run
     let h = fnv(line.as_bytes());
     let mut rng = Rng::new(h);
